@@ -4,26 +4,79 @@
 
 package common
 
+//@ -- SnapId(s): the value id (builtin kvval) of the payload hash of s, as a function of the scalar payload fields and of the identity
+//@ -- of the References object and of the Transactions slice (added for C15, which needs "the hash recorded under FINALIZATION/<tx> is
+//@ -- the hash the snapshot is stored under"). ASSUMED determinism of the hash; in-place mutation of *s.References or of the elements
+//@ -- of s.Transactions between two calls is not tracked by this name (no function under contract does that).
+//@ uninterp SnapHashFn(v mathint, n mathint, r mathint, t mathint, refs *RoundLink, txs []crypto.Hash) mathint
+//@ spec SnapId(s *Snapshot) mathint = SnapHashFn(s.Version, kvval(s.NodeId), s.RoundNumber, s.Timestamp, s.References, s.Transactions)
+//@ -- SnapSrc(s): identity of the snapshot object at s as a payload carrier -- for an object returned by UnmarshalVersionedSnapshot the id
+//@ -- (kvval) of the byte string it was decoded from (a fact about the allocation, hence a function of the pointer), otherwise an arbitrary
+//@ -- number. SnapPH: the payload hash as a function of that identity and of the scalar payload fields.
+//@ -- ASSUMPTION behind [deterministic] (added for C35): PayloadHash is Blake3 over the encoding of Version, NodeId, RoundNumber, References,
+//@ -- Transactions, Timestamp, so two calls on the same object agree unless a payload field was written in between; the clause makes the
+//@ -- scalar fields and the transaction COUNT explicit and assumes that *s.References and the elements of s.Transactions are not
+//@ -- overwritten in place between two hash computations that a proof compares (nothing in the repository does that: the slice only grows
+//@ -- by AddTransaction, References is replaced as a whole).
+//@ uninterp SnapSrc(s *Snapshot) mathint
+//@ uninterp SnapPH(src mathint, node crypto.Hash, round mathint, ts mathint, ntx mathint) crypto.Hash
 //@ assume func (s *Snapshot) PayloadHash
 //@   requires s != nil && s.Version == SnapshotVersionCommonEncoding
 //@   modifies nothing
+//@   ensures [deterministic] result == SnapPH(SnapSrc(s), s.NodeId, s.RoundNumber, s.Timestamp, len(s.Transactions))
+//@   ensures [deterministic-id] kvval(result) == SnapId(s)
 
 // ───────────── round.go (C19, C18) ─────────────
 
 //@ spec SnapSliceOK(ss []*Snapshot) bool = forall i int :: 0 <= i && i < len(ss) ==> ss[i] != nil && ss[i].Timestamp < 9223372036854775808
 //@ spec SpanOK(ss []*Snapshot) bool = forall i, j int :: 0 <= i && i < len(ss) && 0 <= j && j < len(ss) ==> ss[i].Timestamp < ss[j].Timestamp + config.SnapshotRoundGap
 
+// C18: the round hash as a function of (node, number, the snapshots in (Timestamp, Hash) order).
+// The three spec functions below are SHARED with storage.computeRoundHash (storage/zz_contracts_c18_verif.go refers to
+// them as common.RoundKeyLess / common.RoundSeed / common.RoundStep), so the two postconditions are the same formula
+// up to the element type of the slice.
+//@ spec RoundKeyLess(t1 uint64, h1 crypto.Hash, t2 uint64, h2 crypto.Hash) bool = t1 < t2 || (t1 == t2 && lexlt(h1, h2))
+//@ spec RoundSeed(nodeId crypto.Hash, number uint64) crypto.Hash = crypto.Blake3Of(cat(seq(nodeId), Be64Of(number)))
+//@ spec RoundStep(prev crypto.Hash, h crypto.Hash) crypto.Hash = crypto.Blake3Of(cat(seq(prev), seq(h)))
+//@ spec SnapSorted(ss []*Snapshot) bool = forall i, j int :: 0 <= i && i < j && j < len(ss) ==> !RoundKeyLess(ss[j].Timestamp, ss[j].Hash, ss[i].Timestamp, ss[i].Hash)
+//@ rec RoundChain(seed crypto.Hash, ss []*Snapshot, n int) crypto.Hash = n <= 0 ? seed : RoundStep(RoundChain(seed, ss, n - 1), ss[n - 1].Hash)
+
+//@ -- the comparator key order is a strict total order up to equal (Timestamp, Hash): what makes the (Timestamp, Hash)
+//@ -- sequence of the sorted arrangement of a multiset of snapshots unique. lexlt is uninterpreted (stdlib.spec: bytes.Compare);
+//@ -- that bytes.Compare's order is a strict total order on byte strings (T-BYTES) is what the `requires` below assume.
+//@ lemma RoundKeyTotal(t1 uint64, h1 crypto.Hash, t2 uint64, h2 crypto.Hash)
+//@   property C18
+//@   requires lexlt(h1, h2) || lexlt(h2, h1) || h1 == h2
+//@   requires !(lexlt(h1, h2) && lexlt(h2, h1)) && !lexlt(h1, h1)
+//@   ensures [total] RoundKeyLess(t1, h1, t2, h2) || RoundKeyLess(t2, h2, t1, h1) || (t1 == t2 && h1 == h2)
+//@   ensures [asym] !(RoundKeyLess(t1, h1, t2, h2) && RoundKeyLess(t2, h2, t1, h1))
+//@   ensures [irrefl] !RoundKeyLess(t1, h1, t1, h1)
+//@ lemma RoundKeyTrans(t1 uint64, h1 crypto.Hash, t2 uint64, h2 crypto.Hash, t3 uint64, h3 crypto.Hash)
+//@   property C18
+//@   requires lexlt(h1, h2) && lexlt(h2, h3) ==> lexlt(h1, h3)
+//@   requires RoundKeyLess(t1, h1, t2, h2) && RoundKeyLess(t2, h2, t3, h3)
+//@   ensures [trans] RoundKeyLess(t1, h1, t3, h3)
+
 //@ func ComputeRoundHash$1
-//@   property C19
+//@   property C19, C18
 //@   requires SnapSliceOK(snapshots) && 0 <= i && i < len(snapshots) && 0 <= j && j < len(snapshots)
 //@   pure
-//@   ensures result <==> snapshots[i].Timestamp < snapshots[j].Timestamp || (snapshots[i].Timestamp == snapshots[j].Timestamp && lexlt(snapshots[i].Hash, snapshots[j].Hash))
+//@   ensures result <==> RoundKeyLess(snapshots[i].Timestamp, snapshots[i].Hash, snapshots[j].Timestamp, snapshots[j].Hash)
 
 //@ func ComputeRoundHash
-//@   property C19
+//@   property C19, C18
 //@   requires len(snapshots) > 0 && SnapSliceOK(snapshots) && SpanOK(snapshots)
 //@   modifies snapshots[..]
 //@   ensures [bounds] result0 <= result1 && result1 < result0 + config.SnapshotRoundGap
 //@   ensures [range] forall i int :: 0 <= i && i < len(snapshots) ==> result0 <= snapshots[i].Timestamp && snapshots[i].Timestamp <= result1
+//@   ensures [sorted] SnapSorted(snapshots)
+//@   ensures [same-in] forall i int :: 0 <= i && i < len(snapshots) ==> exists j int :: 0 <= j && j < len(snapshots) && snapshots[i] == old(snapshots[j])
+//@   ensures [same-out] forall j int :: 0 <= j && j < len(snapshots) ==> exists i int :: 0 <= i && i < len(snapshots) && snapshots[i] == old(snapshots[j])
+//@   ensures [start] result0 == snapshots[0].Timestamp
+//@   ensures [end] result1 == snapshots[len(snapshots) - 1].Timestamp
+//@   ensures [hash] result2 == RoundChain(RoundSeed(nodeId, number), snapshots, len(snapshots))
 //@   loop 0 invariant SnapSliceOK(snapshots) && forall k int :: 0 <= k && k <= rangeindex ==> snapshots[k].Version <= version
 //@   loop 1 invariant SnapSliceOK(snapshots) && (forall k int :: 0 <= k && k < len(snapshots) ==> snapshots[k].Version <= version && snapshots[k].Timestamp <= end)
+//@   loop 0 invariant [sorted] SnapSorted(snapshots)
+//@   loop 1 invariant [sorted] SnapSorted(snapshots)
+//@   loop 1 invariant [chain] hash == RoundChain(RoundSeed(nodeId, number), snapshots, rangeindex + 1)
